@@ -42,6 +42,8 @@ POOL = [
     ("{}", "obj"), ("{a: 1}", "obj"), ("{a: 1, b: [2]}", "obj"), ("{a: {b: 1}}", "obj"), ("o1", "obj"), ("c1", "obj"),
     ("%{}", "map"), ("%{1: 2}", "map"), ('%{"a": [1], 2: nil}', "map"), ("%{[1]: 1}", "map"), ("%{[1]: 1, {a: 1}: 2}", "map"),
     ("(1:3)", "range"), ("(1:3:2)", "range"), ("(nil:nil)", "range"), ('("a":"c")', "range"),
+    # ranges whose step is not a plain int are values too: equal to themselves and to an equal copy
+    ("(1.0:2.0:0.5)", "range"), ("('a:'z:'b)", "range"), ("(10:1:0)", "range"), ("(1:3:nil)", "range"), ("(1:3:1)", "range"), ("([1]:[2]:{a: 1})", "range"),
     ("nil", "nil"),
     ("f1", "func"), ("f2", "func"), ("{|x| x}", "func"),
     ("e1", "either"), ("e2", "either"), ("ev", "either"), ("3.try", "either"),
